@@ -11,7 +11,90 @@ def build():
     return vlib.compile_cxx(SRC, "c15", std="c++14", opt="-O2", san="none")
 
 
+TYPES = [("int8_t", True, 8, "std::int8_t"), ("uint8_t", False, 8, "std::uint8_t"), ("int16_t", True, 16, "std::int16_t"), ("uint16_t", False, 16, "std::uint16_t"),
+         ("int32_t", True, 32, "std::int32_t"), ("uint32_t", False, 32, "std::uint32_t"), ("int64_t", True, 64, "std::int64_t"), ("uint64_t", False, 64, "std::uint64_t"),
+         ("char", True, 8, "char"), ("long long", True, 64, "long long"), ("unsigned long long", False, 64, "unsigned long long")]
+FUNCS = [("cmp_equal", lambda a, b: a == b), ("cmp_not_equal", lambda a, b: a != b), ("cmp_less", lambda a, b: a < b),
+         ("cmp_greater", lambda a, b: a > b), ("cmp_less_equal", lambda a, b: a <= b), ("cmp_greater_equal", lambda a, b: a >= b)]
+
+
+def _vals(signed, bits):
+    if signed:
+        return [("min", -(1 << (bits - 1))), ("neg", -1), ("zero", 0), ("pos", 1), ("max", (1 << (bits - 1)) - 1)]
+    return [("zero", 0), ("pos", 1), ("max", (1 << bits) - 1)]
+
+
+def _lit(cxx, signed, bits, v):
+    if signed and v == -(1 << (bits - 1)):
+        return "std::numeric_limits<%s>::min()" % cxx
+    return "static_cast<%s>(%d%s)" % (cxx, v, "ULL" if not signed else "LL")
+
+
+def constexpr_cases():
+    """Every function x ordered type pair x sign/extreme class of both operands: (case id, static_assert line)."""
+    cases = []
+    for (tn, ts, tb, tc) in TYPES:
+        for (un, us, ub, uc) in TYPES:
+            for (fn, f) in FUNCS:
+                for (an, av) in _vals(ts, tb):
+                    for (bn, bv) in _vals(us, ub):
+                        cid = "%s/%s,%s/%s,%s" % (fn, tn, un, an, bn)
+                        exp = "true" if f(av, bv) else "false"
+                        cases.append((cid, "static_assert(xtl::%s(%s, %s) == %s, \"%s\");" % (fn, _lit(tc, ts, tb, av), _lit(uc, us, ub, bv), exp, cid),
+                                      "%s(%s(%d), %s(%d))" % (fn, tn, av, un, bv), exp))
+    return cases
+
+
+def constexpr_part(ctx, only=None):
+    """Usable in constant expressions: one generated TU with one static_assert per case and line; every failing line is a violation."""
+    import subprocess
+    cases = constexpr_cases()
+    if only is not None:
+        cases = [c for c in cases if c[0] == only]
+    gen = os.path.join(vlib.VERIF, "build", "c15gen")
+    os.makedirs(gen, exist_ok=True)
+    src = os.path.join(gen, "constexpr_cases%s.cpp" % ("" if only is None else "_one"))
+    head = ["#include <xtl/xcompare.hpp>", "#include <cstdint>", "#include <limits>"]
+    with open(src, "w") as f:
+        f.write("\n".join(head) + "\n" + "\n".join(c[1] for c in cases) + "\nint main() { return 0; }\n")
+    first = len(head) + 1
+    configs = [("g++", "c++14"), ("g++", "c++17"), ("clang++", "c++14"), ("clang++", "c++17")]
+
+    def one(cfg):
+        cxx, std = cfg
+        r = subprocess.run([cxx, "-std=" + std, "-fsyntax-only", "-ferror-limit=0" if cxx == "clang++" else "-fmax-errors=0", "-I" + vlib.INCLUDE, src],
+                           stdout=subprocess.PIPE, stderr=subprocess.PIPE, text=True)
+        bad = {}
+        for line in r.stderr.splitlines():
+            if line.startswith(src + ":") and " error: " in line:
+                try:
+                    ln = int(line.split(":")[1])
+                except ValueError:
+                    continue
+                if first <= ln < first + len(cases):
+                    bad.setdefault(ln - first, line.split(" error: ", 1)[1][:200])
+        if r.returncode != 0 and not bad:
+            raise vlib.HarnessError("C15 constexpr TU failed to compile outside the static_asserts (%s -std=%s): %s" % (cxx, std, r.stderr[-1500:]))
+        return cfg, bad
+    res = vlib.parallel([(lambda c=c: one(c)) for c in configs])
+    fails = {}
+    for cfg, bad in res:
+        for i, why in bad.items():
+            fails.setdefault(i, []).append(("%s -std=%s" % cfg, why))
+    ctx.stats["constexpr_cases"] = ctx.stats.get("constexpr_cases", 0) + len(cases)
+    ctx.stats["constexpr_evaluations"] = ctx.stats.get("constexpr_evaluations", 0) + len(cases) * len(configs)
+    for i, lst in sorted(fails.items()):
+        cid, _, call, exp = cases[i]
+        fn, pair, cls = cid.split("/")
+        wrong = "non-constant" not in lst[0][1] and "not a constant" not in lst[0][1] and "constant expression" not in lst[0][1] and "static assertion failed" in lst[0][1].replace("static_assert failed", "static assertion failed")
+        kind = "wrong-value-at-compile-time" if wrong else "not-a-constant-expression"
+        ctx.violation("C15/constexpr/%s/%s/%s/%s" % (fn, pair, cls, kind),
+                      "%s must be usable in a constant expression and yield %s; %s: %s (%d configuration(s))" % (call, exp, lst[0][0], lst[0][1], len(lst)),
+                      args=["--constexpr-case", cid])
+
+
 def run(ctx):
+    constexpr_part(ctx)
     binary = build()
     full_bits = "24" if ctx.tier == "quick" else "32"
     n = 121 if ctx.tier == "thorough" else 16
@@ -24,9 +107,12 @@ def run(ctx):
                 "non-trivial = value pairs on which the builtin ==, < or > on the promoted operands differs from the mathematical answer" % full_bits)
     ctx.assumptions += ["__int128 comparison is the reference", "bool, wchar_t, char16_t/char32_t are not in the type alphabet",
                         "wider-than-16-bit types are covered by the boundary alphabet, not exhaustively"]
-    ctx.note("constant-expression use and noexcept are static_asserted for every type pair and function in the harness")
+    ctx.note("constant-expression use: a generated TU with one static_assert per (function, ordered type pair, operand class pair with classes min/neg/zero/pos/max) = %d cases, compiled by g++ and clang++ at C++14 and C++17; every failing line is reported with its case id" % ctx.stats.get("constexpr_cases", 0))
 
 
 def replay(ctx, rec):
+    if rec["args"] and rec["args"][0] == "--constexpr-case":
+        constexpr_part(ctx, only=rec["args"][1])
+        return
     binary = build()
     ctx.run_harness(binary, rec["args"], tag="c15")
